@@ -286,6 +286,19 @@ CHECKS.update({
     ),
 })
 
+CHECKS.update({
+    "C13": (
+        "generated pools with near-duplicates and generated sequences of comparisons / container operations; oracle = equivalence axioms, implications of == (hash, repr, own structural key, signature), snapshot invariants after every operation, pickle and eval(repr) round trips",
+        "Hypothesis-generated pools of expressions and forms containing rebuilt copies, one-edit variants and terminal twins "
+        "that differ in one datum (count, shape, function space, number, part, literal type, index objects), exercised by "
+        "generated sequences of ==, !=, set/dict membership, sorted_expr, hash, str, pickle and eval(repr): == must be an "
+        "equivalence that implies equal hash, repr, structure and signature; no operation may change repr, hash or "
+        "structure of any member; round trips must return equal objects.",
+        "Own structural key defines 'unchanged'; BaseFormOperators not generated.",
+        "4/C13",
+    ),
+})
+
 NOT_YET = {}
 
 
